@@ -385,11 +385,11 @@ def finish(mod, pid, tier, seed, results, dead, wall, n_shards) -> int:
                f"distinct_nontrivial={len(sigs)} wall={wall:.1f}s counters="
                + json.dumps({k: counters[k] for k in sorted(counters)}))
     print(summary)
+    for r in reasons[:10]:
+        print(f"INCONCLUSIVE property={pid} reason={r}")
     if new_sigs:
         return EXIT_VIOLATED
     if reasons:
-        for r in reasons[:10]:
-            print(f"INCONCLUSIVE property={pid} reason={r}")
         return EXIT_INCONCLUSIVE
     return EXIT_HELD
 
